@@ -200,11 +200,11 @@ def run():
     uni, ust = common.tlc_eval_json("Dump_Universe", cfg="Dump_Universe_Q" if QUICK else "Dump_Universe_T")
     chk.add_tlc(ust)
     from harness.props.c03 import mutation_layers
-    for a in rng.sample(uni, 150 if QUICK else 3000):
+    for a in rng.sample(uni, 150 if QUICK else 10000):
         layers = mutation_layers(a, rng, maxm=2)
         cases.append(drive(rng.choice(layers), rng))
     nuni = len(cases)
-    for i in range(1200 if QUICK else 20000):
+    for i in range(1200 if QUICK else 80000):
         a = gen.random_abstract(rng, N=rng.randint(2, 7), K=rng.randint(1, 5), max_edges=12, nsites=4, nmuts=4)
         cases.append(drive(a, rng))
     for c in [c for c in cases if "error" in c]:
